@@ -241,7 +241,8 @@ def main(argv):
             cfgs = (a.configs.split(",") if a.configs else ALL_CONFIGS)
             per, nbin = int(600000 * a.scale), int(1200000 * a.scale)
         exes = build_many(cfgs)
-        m = run_rounds(1 if a.tier == "quick" else 4, "c05", "gen", (names, per // NCPU + 1, nbin // NCPU + 1), [(c, exes[c]) for c in cfgs], a.seed)
+        m = run_rounds(1 if a.tier == "quick" else 4, "c05", "gen", (names, per // NCPU + 1, nbin // NCPU + 1), [(c, exes[c]) for c in cfgs], a.seed,
+                       split=1 if a.tier == "quick" else 3, count_idx=(1, 2))
         rep.merge(m)
         rep.require("decode_ct:v=q", "decode_ct:v=q-1", "decode_ct:v=q+1", "decode_ct:all-ones", "decode_ct:len=L-1", "decode_ct:len=L+1",
                     "decode_ct:len=0", "decode:v=q", "decode32:v>=q", "reduce:all-ones", "reduce:blocks=q", "reduce:solved-fold-boundary", "reduce:len>2L", "reduce:len=0",
